@@ -509,7 +509,7 @@ def _fuzz_main(argv):
                 json.dump({'text': text, 'mode': 'parse' if target == 'parse' else 'strio', 'message': msg}, f)
             dump()
             raise RuntimeError('C06 oracle: ' + msg)
-        if stats['execs'] % 20000 == 0:
+        if stats['execs'] % 2000 == 0:
             dump()
 
     import atexit
